@@ -30,8 +30,8 @@ Proof. unfold handler. cbn. rewrite tev_app, tev_c_ops. reflexivity. Qed.
 
 Lemma tev_body_method c : is_method (c_kind c) = true -> tev (body c) = handler_events c.
 Proof.
-  unfold body, handler_events. destruct (c_kind c); cbn [is_method]; try discriminate; intros _;
-    rewrite !tev_app, tev_handler; cbn; rewrite <- !app_assoc; reflexivity.
+  unfold body, handler_events, wants_reply. destruct (c_kind c); cbn [is_method]; try discriminate; intros _;
+    destruct (c_noreply c); cbn [negb]; rewrite !tev_app, tev_handler; cbn; rewrite <- !app_assoc; reflexivity.
 Qed.
 
 (* every event of the code of call c carries c's id *)
@@ -47,7 +47,7 @@ Qed.
 Lemma in_tev_body c e : In e (tev (body c)) -> ev_call e = c_id c.
 Proof.
   pose proof (in_tev_handler c e) as Hh.
-  unfold body. destruct (c_kind c); rewrite ?tev_app; cbn [tev app]; rewrite ?in_app_iff; cbn [In];
+  unfold body. destruct (c_kind c); destruct (c_noreply c); rewrite ?tev_app; cbn [tev app]; rewrite ?in_app_iff; cbn [In];
     intuition (subst; try reflexivity).
 Qed.
 
@@ -74,7 +74,8 @@ Proof. unfold handler. cbn. rewrite forallb_app, flat_c_ops. reflexivity. Qed.
 Lemma flat_body c : forallb flat_instr (body c) = true.
 Proof.
   pose proof (flat_handler c) as Hh.
-  unfold body. destruct (c_kind c); rewrite ?forallb_app; cbn [forallb flat_instr app]; rewrite ?forallb_app, ?Hh; reflexivity.
+  unfold body. destruct (c_kind c); destruct (c_noreply c); rewrite ?forallb_app; cbn [forallb flat_instr app];
+    rewrite ?forallb_app, ?Hh; reflexivity.
 Qed.
 
 Lemma body_no_recv c : ~ In IRecv (body c).
